@@ -41,13 +41,14 @@ def masters(seed, n):
 # workers (fresh interpreter, own bitcoinlib data directory)
 # ---------------------------------------------------------------------------------------------
 
-def _create(name, ms, perm, holder, m, wt, sort):
+def _create(name, ms, perm, holder, m, wt, sort, afs=True):
     from bitcoinlib.wallets import Wallet
     from bitcoinlib.keys import HDKey
     hd = [HDKey(key=k.to_bytes(32, 'big'), chain=c, network=NET, witness_type=wt, multisig=True) for k, c in ms]
     keys = [hd[i] if i == holder else hd[i].public_master(multisig=True, witness_type=wt) for i in perm]
     uri = 'sqlite:///' + os.path.join(os.environ['BCL_DATA_DIR'], name + '.sqlite')
-    return Wallet.create(name, keys, sigs_required=m, network=NET, witness_type=wt, sort_keys=sort, db_uri=uri)
+    return Wallet.create(name, keys, sigs_required=m, network=NET, witness_type=wt, sort_keys=sort, anti_fee_sniping=afs,
+                         db_uri=uri)
 
 
 def _close(w):
@@ -85,7 +86,7 @@ def ceremony_job(job):
     """Create the cosigner wallets of one group, fund common addresses, run ceremonies; report every observation."""
     logging.disable(logging.CRITICAL)
     from bitcoinlib.keys import Key
-    seed, m, n, wt, sort, wallets, nslots, ceremonies, tag = job
+    seed, m, n, wt, sort, wallets, nslots, ceremonies, tag, settings = job
     ms = masters(seed, n)
     import time
     t0 = time.time()
@@ -93,7 +94,7 @@ def ceremony_job(job):
     ws = []
     try:
         for wi, (perm, holder) in enumerate(wallets):
-            ws.append(_create('c%s_%d' % (tag, wi), ms, perm, holder, m, wt, sort))
+            ws.append(_create('c%s_%d' % (tag, wi), ms, perm, holder, m, wt, sort, settings[wi]['afs']))
         slots = []
         for s in range(nslots):
             wks = [w.new_key(cosigner_id=0, change=0) for w in ws]
@@ -129,7 +130,8 @@ def ceremony_job(job):
             err = ''
             try:
                 if op == 'propose':
-                    copies[w] = ws[w].transaction_create([(dest, value - FEE)], [(txid, outn, slot['key_ids'][w], value)], fee=FEE)
+                    copies[w] = ws[w].transaction_create([(dest, value - FEE)], [(txid, outn, slot['key_ids'][w], value)], fee=FEE,
+                                                         locktime=a.get('lt', 0), replace_by_fee=a.get('rbf', False))
                 elif op == 'sign':
                     copies[w].sign()
                 elif op == 'send':
@@ -137,7 +139,8 @@ def ceremony_job(job):
                 elif op == 'verify':
                     pass
                 elif op == 'send_to':
-                    copies[w] = ws[w].send_to(dest, value - FEE, input_key_id=slot['key_ids'][w], fee=FEE, broadcast=True)
+                    copies[w] = ws[w].send_to(dest, value - FEE, input_key_id=slot['key_ids'][w], fee=FEE, broadcast=True,
+                                              locktime=a.get('lt', 0), replace_by_fee=a.get('rbf', False))
                 elif op == 'handoff':
                     t = copies[w]
                     if form == 'object':
@@ -164,6 +167,7 @@ def ceremony_job(job):
                     ob['pushed'] = bool(t.pushed) and not waspushed.get(id(t), False)
                     waspushed[id(t)] = bool(t.pushed)
                     ob['err'] = bool(t.error)
+                    ob['shows'] = 'locktime %s sequence %s' % (t.locktime, ','.join('%x' % i.sequence for i in t.inputs))
                     ob['verify'] = bool(t.verify()) if op == 'verify' else ob['verified']
                     if op in ('propose', 'handoff', 'send_to'):
                         ob['rs'] = list(t.inputs[0].redeemscript or b'')
@@ -400,7 +404,10 @@ def solve(recs):
 def describe(events):
     def one(e):
         a = e['a']
-        s = '%s(%d%s)' % (a['op'], a['w'], ('->%d as %s' % (a['v'], a['form'])) if a['op'] == 'handoff' else '')
+        s = '%s(%d%s%s)' % (a['op'], a['w'], ('->%d as %s' % (a['v'], a['form'])) if a['op'] == 'handoff' else '',
+                            (', locktime=%d, replace_by_fee=%s' % (a.get('lt', 0), a.get('rbf', False))) if a['op'] in ('propose', 'send_to') else '')
+        if a['op'] in ('propose', 'handoff', 'send_to') and e.get('shows'):
+            s += '{%s}' % e['shows']
         if e['nsig'] >= 0:
             s += '=[%d sig%s%s%s]' % (e['nsig'], ' verified' if e['verified'] else '', ' PUSHED' if e['pushed'] else '',
                                       ' error' if e['err'] else '')
@@ -444,7 +451,7 @@ def run(replay=None):
             ajobs.append((c['seed'], c['m'], c['n'], c['wt'], c['sort'], [(tuple(p), h) for p, h in c['combos']], 'r'))
         else:
             cjobs.append((c['seed'], c['m'], c['n'], c['wt'], c['sort'], [(tuple(p), h) for p, h in c['wallets']], c['nslots'],
-                          [c['ceremony']], 'r'))
+                          [c['ceremony']], 'r', c.get('settings') or [{'afs': True} for _ in c['wallets']]))
     else:
         for k, (m, n, wt, srt, combos) in enumerate(agree_plan(rng, thorough)):
             ajobs.append((seed0 * 1000 + k, m, n, wt, srt, combos, str(k)))
@@ -464,7 +471,17 @@ def run(replay=None):
             # send_to: Propose; Sign; Send in one call, on a slot of its own (the wallet selects the input itself)
             for w in rng.sample(range(1, W + 1), min(2, W)):
                 cl.append({'slot': 0, 'point': 0, 'events': [E('send_to', w), E('verify', w)]})
-            cjobs.append((seed0 * 1000 + 500 + k, m, n, wt, srt, wallets, nslots, cl, str(k)))
+            # per-wallet settings that influence what a transaction commits to: anti-fee-sniping on (the default: locktime =
+            # block height) or off (locktime 0); both kinds in every group.  Options of the proposing call: an explicit
+            # locktime (block height / time stamp) and replace-by-fee (sequence) - the proposer's choice, never the importer's
+            settings = [{'afs': (i + k) % 2 == 0} if W > 1 else {'afs': rng.random() < 0.5} for i in range(W)]
+            rng.shuffle(settings)
+            for c in cl:
+                lt, rbf = rng.choice([0, 0, 0, 0, 650000, 1700000000]), rng.random() < 0.25
+                for a in c['events']:
+                    if a['op'] in ('propose', 'send_to'):
+                        a['lt'], a['rbf'] = lt, rbf
+            cjobs.append((seed0 * 1000 + 500 + k, m, n, wt, srt, wallets, nslots, cl, str(k), settings))
 
     # ------------------------------------------------------------------ run on real wallets
     jobs = [('a', j) for j in ajobs] + [('c', j) for j in cjobs]
@@ -503,10 +520,10 @@ def run(replay=None):
                 recs.append(agree_rec(m, n, wt, srt, ms, [x + 1 for x in combos[0][0]], obs))
                 meta.append(('a', (m, n, wt, srt, ri), obs))
         else:
-            seed, m, n, wt, srt, wallets, nslots, cl, tag = job
+            seed, m, n, wt, srt, wallets, nslots, cl, tag, settings = job
             ms = masters(seed, n)
             base = {'kind': 'ceremony', 'seed': seed, 'm': m, 'n': n, 'wt': wt, 'sort': srt, 'wallets': [[list(p), h] for p, h in wallets],
-                    'nslots': nslots}
+                    'nslots': nslots, 'settings': settings}
             if res['setup']:
                 if res['setup'].startswith('machinery'):
                     raise common.MachineryError(res['setup'])
@@ -523,6 +540,7 @@ def run(replay=None):
                 pubs = [c10_ref.derive_pub(ms[i], slot['path']) for i in range(n)]
                 recs.append({'kind': 'ceremony', 'm': m, 'wt': wt, 'net': NET, 'sorted': srt, 'listing': [x + 1 for x in wallets[0][0]],
                              'pubs': [list(p) for p in pubs], 'holder': [h + 1 for _, h in wallets],
+                             'afs': [bool(st['afs']) for st in settings], 'height': [1, 0, 0, 0],    # bitcoinlib_test: block count 1
                              'amount': list(got['amount'].to_bytes(8, 'little')),
                              'events': [{k: e[k] for k in ('a', 'ok', 'nsig', 'verified', 'verify', 'pushed', 'err', 'rs', 'tx')} for e in got['events']],
                              'txs': [list(bytes.fromhex(x)) for x in got['txs']]})
@@ -548,15 +566,16 @@ def run(replay=None):
                 ck.sample({'agree': '%d-of-%d %s' % (m, n, wt), 'wallets': len(obs), 'path': obs[0]['path'], 'address': obs[0]['addr']})
         else:
             _, job, got, case, slot = mt
-            seed, m, n, wt, srt, wallets, nslots, cl, tag = job
+            seed, m, n, wt, srt, wallets, nslots, cl, tag, settings = job
             ncer += 1
             ck.traces += 1
             nraw += len(got['txs'])
             nvalid += sum(1 for c in v.get('cons', []) if c == 'valid')
             for e in got['events']:
-                ck.case(('cer', m, n, wt, e['a']['op'], e['a']['form'], e['nsig'], e['verified'], e['pushed']))
-            text = '%d-of-%d %s wallets(listing, holder)=%s spending %s: %s' % (m, n, wt, [(list(p), h) for p, h in wallets],
-                                                                                slot['addr'], describe(got['events']))
+                ck.case(('cer', m, n, wt, e['a']['op'], e['a']['form'], e['nsig'], e['verified'], e['pushed'],
+                         settings[(e['a']['v'] or e['a']['w']) - 1]['afs'], e['a'].get('lt', -1) > 0, e['a'].get('rbf', False)))
+            text = '%d-of-%d %s wallets(listing, holder, anti_fee_sniping)=%s spending %s: %s' % (
+                m, n, wt, [(list(p), h, st['afs']) for (p, h), st in zip(wallets, settings)], slot['addr'], describe(got['events']))
             if v['v'] != 'ok':
                 ck.violation(None, 'clause %s; event %d of %s' % (v['v'], v['at'], text), case)
             for dev in v['dev']:
